@@ -51,19 +51,21 @@ Print Assumptions c01_page_body_roundtrip.
 
 (** Chunk layer: for every partition of a column's rows into write_batch calls and every target page size (any
     number of pages, cut wherever the size estimate says), reading the chunk page after page - header, CRC,
-    decompression, page decode - wherever it lies in the file returns exactly the rows written. *)
+    decompression, page decode - wherever it lies in the file returns exactly the rows written.  [hdr_ok]: the
+    headers the writer emits (sizes and counts below 2^31, CRC below 2^32, statistics of at most 8 bytes). *)
 Theorem c01_chunk_roundtrip :
   forall (codec : Z) (compress : list N -> list N) (decompress : list N -> N -> res (list N))
          (header : page_hdr -> list N) (parse_header : list N -> res (hdr_core * N)) (verify : bool),
   (Z.eqb codec E_CARQUET_COMPRESSION_UNCOMPRESSED = true -> forall b, compress b = b) ->
   (Z.eqb codec E_CARQUET_COMPRESSION_UNCOMPRESSED = false ->
    forall b, Forall (fun x => x < 256) b -> len b < 2 ^ 31 -> decompress (compress b) (len b) = Ok b) ->
-  (forall h rest, parse_header (header h ++ rest) = Ok (core_of h, len (header h))) ->
-  (forall h, len (header h) <= 256) -> (forall h, 0 < len (header h)) ->
+  (forall b, Forall (fun x => x < 256) b -> len b < 2 ^ 31 -> Forall (fun x => x < 256) (compress b)) ->
+  (forall h rest, hdr_ok h -> parse_header (header h ++ rest) = Ok (core_of h, len (header h))) ->
+  (forall h, hdr_ok h -> len (header h) <= 256) -> (forall h, hdr_ok h -> 0 < len (header h)) ->
   forall c page_size bs w, column_ok c = true -> forallb (batch_ok c) bs = true ->
   cw_write_all compress header (cw_init c page_size) bs = Ok w ->
   let f := cw_finalize compress header w in
-  w_total_values f < 2 ^ 31 -> w_total_uncompressed f < 2 ^ 31 ->
+  w_total_values f < 2 ^ 31 -> w_total_uncompressed f < 2 ^ 31 -> len (w_buf f) < 2 ^ 31 ->
   w_total_values f = len (rows_of c bs) /\
   forall pre post fuel, (length (w_buf f) <= fuel)%nat ->
     read_chunk codec decompress parse_header verify fuel c (pre ++ w_buf f ++ post) (len pre) (w_total_values f)
@@ -71,12 +73,14 @@ Theorem c01_chunk_roundtrip :
 Proof. exact chunk_roundtrip. Qed.
 Print Assumptions c01_chunk_roundtrip.
 
-(** The property: for every flat schema, every options record (codec, page size), every write history [ops] that
-    denotes a table [t] (TableSpec.table_of: any partition of every column's rows into write_batch calls, row
-    groups cut anywhere, zero-row calls, redundant new_row_group calls, OPTIONAL columns written without
-    definition levels) - every writer call returns OK, the file re-opens, and reading it back yields the same
-    schema, the same row count, the same partition into non-empty row groups and, per column, the same null
-    positions and bit-identical values. *)
+(** The property, parametric in the codec and the Thrift encoders: for every flat schema within the parser's
+    limits, every options record (codec, page size), every write history [ops] that denotes a table [t]
+    (TableSpec.table_of: any partition of every column's rows into write_batch calls, row groups cut anywhere - fewer
+    than MAX_ROW_GROUPS new_row_group calls -, zero-row calls, redundant new_row_group calls, OPTIONAL columns written
+    without definition levels) - every writer call returns OK, the file re-opens, and reading it back yields the
+    same schema, the same row count, the same partition into non-empty row groups and, per column, the same null
+    positions and bit-identical values.  [meta_small]: every number of the footer fits its Thrift field, names are C
+    strings; [small_chunk]: chunk totals below 2^31. *)
 Theorem c01_write_read_roundtrip :
   forall (compress : list N -> list N) (decompress : list N -> N -> res (list N))
          (header : page_hdr -> list N) (parse_header : list N -> res (hdr_core * N))
@@ -85,36 +89,39 @@ Theorem c01_write_read_roundtrip :
   (Z.eqb (o_codec opts) E_CARQUET_COMPRESSION_UNCOMPRESSED = true -> forall b, compress b = b) ->
   (Z.eqb (o_codec opts) E_CARQUET_COMPRESSION_UNCOMPRESSED = false ->
    forall b, Forall (fun x => x < 256) b -> len b < 2 ^ 31 -> decompress (compress b) (len b) = Ok b) ->
-  (forall h rest, parse_header (header h ++ rest) = Ok (core_of h, len (header h))) ->
-  (forall h, len (header h) <= 256) -> (forall h, 0 < len (header h)) ->
-  (forall m, parse_footer (footer m) = Ok m) ->
+  (forall b, Forall (fun x => x < 256) b -> len b < 2 ^ 31 -> Forall (fun x => x < 256) (compress b)) ->
+  (forall h rest, hdr_ok h -> parse_header (header h ++ rest) = Ok (core_of h, len (header h))) ->
+  (forall h, hdr_ok h -> len (header h) <= 256) -> (forall h, hdr_ok h -> 0 < len (header h)) ->
+  (forall m, footer_dom m -> parse_footer (footer m) = Ok m) ->
   forallb column_ok sch = true ->
   forall ops t, table_of sch ops = Some t ->
+  schema_fits sch = true -> N.of_nat (S (newrgs ops)) <= MAX_ROW_GROUPS ->
   exists sts w, run_writer compress header footer sch opts ops = Ok (sts, w, true) /\ all_ok sts = true /\
     (Forall (fun g => Forall small_chunk (rg_chunks g)) (f_groups w) ->
-     len (footer (mkfm footer_version sch (f_total_rows w) (f_groups w) (created_by opts))) < 2 ^ 32 ->
+     meta_small (metadata_of w) -> len (footer (metadata_of w)) < 2 ^ 32 ->
      exists r, read_all (o_codec opts) decompress parse_header parse_footer verify (f_out w) = Ok r
                /\ drop_empty r = result_of_table t).
 Proof. exact write_read_roundtrip. Qed.
 Print Assumptions c01_write_read_roundtrip.
 
 (** The same for files written with UNCOMPRESSED, SNAPPY, LZ4 or LZ4_RAW, where the compressor and decompressor are
-    carquet's own code (compress_data / decompress_page on the concrete models of C09/C10): the codec premise is
-    discharged by snappy_roundtrip_thm / lz4_roundtrip_thm; only the Thrift round trips remain as premises. *)
+    carquet's own code (compress_data / decompress_page on the concrete models of C09/C10): the codec premises are
+    discharged by snappy_roundtrip_thm / lz4_roundtrip_thm and the *_compress_valid theorems. *)
 Theorem c01_write_read_roundtrip_own_codecs :
   forall (header : page_hdr -> list N) (parse_header : list N -> res (hdr_core * N))
          (footer : file_meta -> list N) (parse_footer : list N -> res file_meta) (verify : bool)
          (sch : list column) (opts : options),
   own_codec (o_codec opts) ->
-  (forall h rest, parse_header (header h ++ rest) = Ok (core_of h, len (header h))) ->
-  (forall h, len (header h) <= 256) -> (forall h, 0 < len (header h)) ->
-  (forall m, parse_footer (footer m) = Ok m) ->
+  (forall h rest, hdr_ok h -> parse_header (header h ++ rest) = Ok (core_of h, len (header h))) ->
+  (forall h, hdr_ok h -> len (header h) <= 256) -> (forall h, hdr_ok h -> 0 < len (header h)) ->
+  (forall m, footer_dom m -> parse_footer (footer m) = Ok m) ->
   forallb column_ok sch = true ->
   forall ops t, table_of sch ops = Some t ->
+  schema_fits sch = true -> N.of_nat (S (newrgs ops)) <= MAX_ROW_GROUPS ->
   exists sts w, run_writer (codec_compress (o_codec opts)) header footer sch opts ops = Ok (sts, w, true)
     /\ all_ok sts = true /\
     (Forall (fun g => Forall small_chunk (rg_chunks g)) (f_groups w) ->
-     len (footer (mkfm footer_version sch (f_total_rows w) (f_groups w) (created_by opts))) < 2 ^ 32 ->
+     meta_small (metadata_of w) -> len (footer (metadata_of w)) < 2 ^ 32 ->
      exists r, read_all (o_codec opts) (codec_decompress (o_codec opts)) parse_header parse_footer verify (f_out w) = Ok r
                /\ drop_empty r = result_of_table t).
 Proof. exact write_read_roundtrip_own_codecs. Qed.
